@@ -89,6 +89,8 @@ def generate(rng, tier, run):
     for k in files:
         files[k] = file_text(os.path.join(root, k), includes.get(k, ()))
     case = {"root": root, "roots": roots, "files": files, "mappings": mappings, "includes": includes}
+    # the physical side of a mapping may be spelled with a trailing separator or a redundant "." segment
+    case["phys_suffix"] = {str(i): rng.choice(["/", "/.", "//"]) for i in range(len(mappings)) if rng.random() < 0.2}
     case["requests"] = [gen_request(rng, case) for _ in range(rng.randint(6, 20))]
     case["plan"] = plan_of(case)
     return case
@@ -204,7 +206,7 @@ def plan_of(case):
         steps.append({"do": "fs", "op": "write", "path": os.path.join(root, k), "text": text})
     steps.append({"do": "fs", "op": "chdir", "path": root})
     steps.append({"do": "vm_new", "vm": "a", "template": False, "conf": {"print_work": False},
-                  "mappings": [[os.path.join(root, p), v] for p, v in case["mappings"]]})
+                  "mappings": [[os.path.join(root, p) + case.get("phys_suffix", {}).get(str(i), ""), v] for i, (p, v) in enumerate(case["mappings"])]})
     steps.append({"do": "fs", "op": "snapshot", "path": root})
     for i, r in enumerate(case["requests"]):
         steps.append({"do": "mark", "idx": i})
